@@ -226,4 +226,230 @@ theorem linv_loadAll (ss : List Stmt) (hss : ∀ t ∈ ss, NoAt t.arg) (hnd : (s
   have := linv_loadFrom ss linv_empty (by simp) hss (by simpa using hnd)
   simpa [Registry.loadAll] using this
 
+/-! ### generic facts -/
+
+theorem nodup_of_map {α β : Type} (f : α → β) : ∀ {l : List α}, (l.map f).Nodup → l.Nodup
+  | [], _ => List.nodup_nil
+  | x :: t, h => by
+    rw [List.map_cons, List.nodup_cons] at h
+    rw [List.nodup_cons]
+    exact ⟨fun hm => h.1 (List.mem_map_of_mem hm), nodup_of_map f h.2⟩
+
+theorem mem_iff_get? {km : KeyMap} (hk : (km.map (·.1)).Nodup) (k : String) (v : Nat) :
+    (k, v) ∈ km ↔ km.get? k = some v := by
+  unfold KeyMap.get?
+  constructor
+  · intro hm
+    have := find?_key_some (fun kv : String × Nat => kv.1) hk hm
+    simp only at this
+    rw [this]; rfl
+  · intro hg
+    cases hf : km.find? (fun kv => kv.1 == k) with
+    | none => rw [hf] at hg; cases hg
+    | some kv =>
+      rw [hf] at hg
+      simp only [Option.map_some, Option.some.injEq] at hg
+      have h1 := List.mem_of_find?_eq_some hf
+      have h2 : kv.1 = k := by simpa using List.find?_some hf
+      rw [← h2, ← hg]
+      exact h1
+
+/-! ### the registries of two load orders -/
+
+section
+variable {L : List Stmt} {r : Registry} (hl : LInv r L)
+include hl
+
+theorem LInv.mem_mods (m : Mod) : m ∈ r.mods ↔ L[m.seq]? = some m.stmt := by
+  constructor
+  · intro hm
+    obtain ⟨i, hi⟩ := List.mem_iff_getElem?.mp hm
+    rw [hl.mods i] at hi
+    cases hs : L[i]? with
+    | none => rw [hs] at hi; cases hi
+    | some s =>
+      rw [hs] at hi
+      simp only [Option.map_some, Option.some.injEq] at hi
+      subst hi
+      exact hs
+  · intro hs
+    apply List.mem_iff_getElem?.mpr
+    refine ⟨m.seq, ?_⟩
+    rw [hl.mods, hs]
+    rfl
+
+theorem LInv.seqNodup : (r.mods.map (·.seq)).Nodup := by
+  have : r.mods.map (·.seq) = List.range r.mods.length := by
+    apply List.ext_getElem?
+    intro i
+    rw [List.getElem?_map, hl.mods i]
+    by_cases hi : i < r.mods.length
+    · have hi' : i < L.length := by rw [← hl.length]; exact hi
+      rw [List.getElem?_eq_getElem hi']
+      simp [hi]
+    · rw [List.getElem?_eq_none (by rw [← hl.length]; omega)]
+      simp [hi]
+  rw [this]
+  exact List.nodup_range
+
+theorem LInv.byId_eq (id : Nat) : r.byId id = (L[id]?).map (Model.Mod.mk id) := by
+  rw [Registry.byId_eq hl.inv.seq, hl.mods]
+
+end
+
+theorem fullName_inj {a b : Mod} (ha : NoAt a.name) (hb : NoAt b.name) (hf : a.fullName = b.fullName) :
+    a.name = b.name ∧ a.current = b.current := by
+  rw [Registry.fullName_eq, Registry.fullName_eq] at hf
+  by_cases ea : a.current = ""
+  · by_cases eb : b.current = ""
+    · rw [if_pos ea, if_pos eb] at hf
+      exact ⟨hf, ea.trans eb.symm⟩
+    · rw [if_pos ea, if_neg eb] at hf
+      exact absurd hf.symm (Registry.key_ne_name ha)
+  · by_cases eb : b.current = ""
+    · rw [if_neg ea, if_pos eb] at hf
+      exact absurd hf (Registry.key_ne_name hb)
+    · rw [if_neg ea, if_neg eb] at hf
+      exact Registry.key_inj ha hb hf
+
+/-- **Two load orders of pairwise different modules give registries that hold the same modules
+under renamed sequence numbers.** -/
+theorem regRel_of_perm {loads₁ loads₂ : List Stmt} (hp : loads₁.Perm loads₂)
+    (hn : ∀ t ∈ loads₁, NoAt t.arg) (hnd : (loads₁.map hdr).Nodup) :
+    ∃ σ, RegRel σ (Registry.loadAll loads₁).1 (Registry.loadAll loads₂).1 := by
+  have hn₂ : ∀ t ∈ loads₂, NoAt t.arg := fun t ht => hn t (hp.mem_iff.mpr ht)
+  have hnd₂ : (loads₂.map hdr).Nodup := (hp.map hdr).nodup_iff.mp hnd
+  have l₁ := linv_loadAll loads₁ hn hnd
+  have l₂ := linv_loadAll loads₂ hn₂ hnd₂
+  obtain ⟨σ, τ, hσ⟩ := exists_idxMap hp
+  generalize (Registry.loadAll loads₁).1 = r₁ at l₁ ⊢
+  generalize (Registry.loadAll loads₂).1 = r₂ at l₂ ⊢
+  have hinj : ∀ a b, σ a = σ b → a = b := fun a b e => by rw [← hσ.left a, ← hσ.left b, e]
+  have hlen : loads₂.length = loads₁.length := hp.length_eq.symm
+  have hndL₂ : loads₂.Nodup := nodup_of_map hdr hnd₂
+  -- the tables bind every key to corresponding modules
+  have hget : ∀ sub k, (r₂.kmOf sub).get? k = ((r₁.kmOf sub).get? k).map σ := by
+    intro sub k
+    have hlook : (lk r₁ sub k).map hdrOf = (lk r₂ sub k).map hdrOf := by
+      rw [l₁.inv.look, l₂.inv.look]
+      exact Registry.denotesS_perm (hp.map hdr) (Registry.noAt_hdrs hn) sub k
+    cases h1 : (r₁.kmOf sub).get? k with
+    | none =>
+      rw [Registry.lk_none_of_get? h1] at hlook
+      cases h2 : (r₂.kmOf sub).get? k with
+      | none => rfl
+      | some j =>
+        obtain ⟨o, _, ho, _⟩ := Registry.lk_of_get? l₂.inv h2
+        rw [ho] at hlook; cases hlook
+    | some i =>
+      obtain ⟨o₁, hb₁, ho₁, hm₁⟩ := Registry.lk_of_get? l₁.inv h1
+      rw [ho₁] at hlook
+      cases h2 : (r₂.kmOf sub).get? k with
+      | none => rw [Registry.lk_none_of_get? h2] at hlook; cases hlook
+      | some j =>
+        obtain ⟨o₂, hb₂, ho₂, hm₂⟩ := Registry.lk_of_get? l₂.inv h2
+        rw [ho₂] at hlook
+        simp only [Option.map_some, Option.some.injEq] at hlook ⊢
+        have hs₁ : o₁.stmt ∈ loads₁ := l₁.inv.src _ hm₁
+        have hs₂ : o₂.stmt ∈ loads₁ := hp.mem_iff.mpr (l₂.inv.src _ hm₂)
+        have hst : o₁.stmt = o₂.stmt := inj_of_nodup_map hdr hnd _ hs₁ _ hs₂ hlook
+        have e₁ : o₁.seq = i := (mem_of_byId hb₁).2
+        have e₂ : o₂.seq = j := (mem_of_byId hb₂).2
+        have g₁ : loads₁[i]? = some o₁.stmt := e₁ ▸ (l₁.mem_mods o₁).mp hm₁
+        have g₂ : loads₂[j]? = some o₂.stmt := e₂ ▸ (l₂.mem_mods o₂).mp hm₂
+        have hi : i < loads₁.length := by
+          by_cases hi : i < loads₁.length
+          · exact hi
+          · rw [List.getElem?_eq_none (by omega)] at g₁; cases g₁
+        have hj : j < loads₂.length := by
+          by_cases hj : j < loads₂.length
+          · exact hj
+          · rw [List.getElem?_eq_none (by omega)] at g₂; cases g₂
+        have : loads₂[j]? = loads₂[σ i]? := by rw [g₂, hσ.get i hi, g₁, hst]
+        exact (List.getElem?_inj hj hndL₂).mp this
+  have hkm : ∀ sub, ((r₁.kmOf sub).map (·.1)).Nodup → ((r₂.kmOf sub).map (·.1)).Nodup →
+      (r₂.kmOf sub).Perm ((r₁.kmOf sub).map (kvRen σ)) := by
+    intro sub k₁ k₂
+    have k₁' : (((r₁.kmOf sub).map (kvRen σ)).map (·.1)).Nodup := by
+      rw [List.map_map]; exact k₁
+    rw [List.perm_ext_iff_of_nodup (nodup_of_map _ k₂) (nodup_of_map _ k₁')]
+    rintro ⟨k, v⟩
+    rw [mem_iff_get? k₂, hget sub k, List.mem_map]
+    constructor
+    · intro hv
+      cases h1 : (r₁.kmOf sub).get? k with
+      | none => rw [h1] at hv; cases hv
+      | some i =>
+        rw [h1] at hv
+        simp only [Option.map_some, Option.some.injEq] at hv
+        exact ⟨(k, i), (mem_iff_get? k₁ k i).mpr h1, by rw [← hv]; rfl⟩
+    · rintro ⟨⟨k', i⟩, hm, e⟩
+      simp only [kvRen, Prod.mk.injEq] at e
+      obtain ⟨rfl, rfl⟩ := e
+      rw [(mem_iff_get? k₁ k' i).mp hm]
+      rfl
+  refine ⟨σ, ⟨hinj, ?_, l₁.seqNodup, hkm false l₁.modKeys l₂.modKeys, l₁.modKeys,
+    hkm true l₁.subKeys l₂.subKeys, l₁.subKeys, ?_, ?_⟩⟩
+  · -- the module lists
+    have nd₂ : r₂.mods.Nodup := nodup_of_map _ l₂.seqNodup
+    have nd₁ : (r₁.mods.map (Mod.ren σ)).Nodup := by
+      apply nodup_of_map (fun m : Mod => m.seq)
+      rw [List.map_map]
+      have : ((fun m : Mod => m.seq) ∘ Mod.ren σ) = σ ∘ (fun m : Mod => m.seq) := rfl
+      rw [this, ← List.map_map]
+      exact nodup_map_inj σ hinj l₁.seqNodup
+    rw [List.perm_ext_iff_of_nodup nd₂ nd₁]
+    intro m
+    rw [l₂.mem_mods, List.mem_map]
+    constructor
+    · intro hm
+      have hj : m.seq < loads₂.length := by
+        by_cases hj : m.seq < loads₂.length
+        · exact hj
+        · rw [List.getElem?_eq_none (by omega)] at hm; cases hm
+      have hi : τ m.seq < loads₁.length := by
+        by_cases hi : τ m.seq < loads₁.length
+        · exact hi
+        · have := hσ.out (τ m.seq) (by omega)
+          rw [hσ.right] at this
+          omega
+      refine ⟨⟨τ m.seq, m.stmt⟩, (l₁.mem_mods _).mpr ?_, ?_⟩
+      · show loads₁[τ m.seq]? = some m.stmt
+        rw [← hσ.get _ hi, hσ.right]; exact hm
+      · show (⟨σ (τ m.seq), m.stmt⟩ : Mod) = m
+        rw [hσ.right]
+    · rintro ⟨m₁, hm₁, rfl⟩
+      have g₁ := (l₁.mem_mods m₁).mp hm₁
+      have hi : m₁.seq < loads₁.length := by
+        by_cases hi : m₁.seq < loads₁.length
+        · exact hi
+        · rw [List.getElem?_eq_none (by omega)] at g₁; cases g₁
+      show loads₂[σ m₁.seq]? = some m₁.stmt
+      rw [hσ.get _ hi]; exact g₁
+  · -- full names
+    intro a ha b hb hf hs
+    have sa : a.stmt ∈ loads₁ := l₁.inv.src _ ha
+    have sb : b.stmt ∈ loads₁ := l₁.inv.src _ hb
+    obtain ⟨e1, e2⟩ := fullName_inj (hn _ sa) (hn _ sb) hf
+    have hh : hdr a.stmt = hdr b.stmt := by
+      show (⟨a.isSub, a.name, a.current⟩ : Spec.Registry.Header) = ⟨b.isSub, b.name, b.current⟩
+      rw [hs, e1, e2]
+    have hst : a.stmt = b.stmt := inj_of_nodup_map hdr hnd _ sa _ sb hh
+    have ga := (l₁.mem_mods a).mp ha
+    have gb := (l₁.mem_mods b).mp hb
+    have hi : a.seq < loads₁.length := by
+      by_cases hi : a.seq < loads₁.length
+      · exact hi
+      · rw [List.getElem?_eq_none (by omega)] at ga; cases ga
+    have : a.seq = b.seq := (List.getElem?_inj hi (nodup_of_map hdr hnd)).mp (by rw [ga, gb, hst])
+    cases a; cases b
+    simp only at this hst
+    rw [this, hst]
+  · -- the module table holds modules
+    intro kv hkv m hm
+    obtain ⟨x, hx, hxs⟩ := l₁.rinv.modules kv hkv
+    rw [hx] at hm
+    cases hm
+    exact hxs
+
 end Goyang.Lemmas.LoadOrder
